@@ -476,6 +476,20 @@ def batch_cases(draw):
             imports = sorted(set(imports) | {(r["subj"]["names"][0], y)}) if not M.related(r["subj"]["names"][0], y) else imports
         return {"type": "rule", "tree": tree, "imports": [list(x) for x in imports], "rule": r}
     if t == "layer":
+        if draw(st.integers(0, 5)) == 0:
+            # one layer lists a package, another one a package inside it: whatever the outcome is (an error today), it has to
+            # be the same one under every hash seed
+            tree = ["q", "q.a", "q.a.x", "q.a.x.k", "q.a.y", "q.b", "q.b.z", "q.c"]
+            inner = draw(st.sampled_from(["q.a.x", "q.a.y"]))
+            layers = [{"name": n, "kind": "names", "modules": m, "as_str": False}
+                      for n, m in draw(st.permutations([("core", ["q.a"]), ("util", [inner]), ("app", ["q.b"])]))]
+            imports = draw(st.lists(st.sampled_from([("q.a.x.k", "q.b.z"), ("q.b", "q.a.x.k"), ("q.a.y", "q.b"), ("q.b.z", "q.a.y"), ("q.a.x", "q.c"),
+                                                     ("q.c", inner), ("q.a.x.k", "q.a.y"), ("q.b", "q.a")]), min_size=1, max_size=4, unique=True))
+            v, d, e = draw(st.sampled_from(RS.SHAPES))
+            names = [ld["name"] for ld in layers]
+            rule = {"verb": v, "dir": "access" if d == "import" else "accessed", "exc": e, "anything": False, "subj": names[0],
+                    "obj": names[1:2] if draw(st.booleans()) else names[1:], "obj_as_str": False}
+            return {"type": "layer", "tree": tree, "imports": [list(x) for x in sorted(imports)], "layers": layers, "rule": rule}
         if draw(st.booleans()):
             return dict(draw(c05.cases()), type="layer")
         # a subject layer of several modules with imports inside the layer and out of it: whichever import a search meets
@@ -548,6 +562,25 @@ def child_main(batch_file: str) -> None:
         sys.stdout.write(json.dumps(eval_batch_case(s), sort_keys=True) + "\n")
 
 
+def nested_layer_cases() -> list:
+    """A fixed family next to the drawn batch: one layer lists a package, another one a package inside it, the rule is about
+    a third layer and the nested ones; modules below the inner package take part in imports. Whatever the outcome is (a
+    LayerMismatch error today), it must be the same under every hash seed."""
+    tree = ["q", "q.a", "q.a.x", "q.a.x.k", "q.a.y", "q.b", "q.b.z", "q.c"]
+    out = []
+    for inner, deep in (("q.a.x", "q.a.x.k"), ("q.a.y", "q.a.y")):
+        for imports in ([[deep, "q.b.z"]], [["q.b", deep]], [[deep, "q.b.z"], ["q.b.z", deep], ["q.c", deep]]):
+            for order in (("core", "util", "app"), ("util", "app", "core")):
+                mods = {"core": ["q.a"], "util": [inner], "app": ["q.b"]}
+                layers = [{"name": n, "kind": "names", "modules": mods[n], "as_str": False} for n in order]
+                for subj, obj in (("app", ["core"]), ("app", ["util"]), ("core", ["app"]), ("util", ["app"])):
+                    for v, d, e in (("should_not", "import", False), ("should", "imported", False), ("should_only", "import", True)):
+                        rule = {"verb": v, "dir": "access" if d == "import" else "accessed", "exc": e, "anything": False,
+                                "subj": subj, "obj": obj, "obj_as_str": False}
+                        out.append({"type": "layer", "tree": tree, "imports": imports, "layers": layers, "rule": rule})
+    return out
+
+
 def hash_seed_part(ctx, n_cases: int, seeds=range(8)) -> None:
     from ..runner import REPO, Stats, derive_seed
 
@@ -562,6 +595,7 @@ def hash_seed_part(ctx, n_cases: int, seeds=range(8)) -> None:
         specs.append(spec)
 
     collect()
+    specs.extend(nested_layer_cases())
     fd, batch = tempfile.mkstemp(prefix="pbt_c15_", suffix=".json")
     os.close(fd)
     Path(batch).write_text(json.dumps(specs))
